@@ -17,6 +17,7 @@ explicit Python call stack (`Frame`), so that every re-entrant point is a config
 
 * `Frame.loop`    — inside `Outbound.resumeProducing`, about to test `while not self._paused`
 * `Frame.ops r`   — inside a turn (or the top-level caller), `r` = operations still to perform
+* `Frame.pull sc r` — inside `PullToPush._pull`, in the turn of the pull producer registered on `sc`
 
 Python sets are lists used through membership only; the deque is a list, left = index 0.
 -/
@@ -32,11 +33,13 @@ inductive Exn where
   | index          -- IndexError: `self._all_producers[0]` on an empty deque
   | dequeRemove    -- ValueError: `_all_producers.remove(p)`, p absent
   | noConnection   -- AttributeError: `self._connection.transport` with `_connection is None`
+  | alreadyClosed  -- AlreadyClosedError: a producer wrote to its locally closed subchannel and let the exception escape
   deriving DecidableEq, Repr
 
 def Exn.name : Exn → String
   | .dupRegister => "ValueError" | .noProducer => "KeyError" | .assertion => "AssertionError"
   | .index => "IndexError" | .dequeRemove => "ValueError" | .noConnection => "AttributeError"
+  | .alreadyClosed => "AlreadyClosedError"
 
 /-- what the producers, the connection and its transport are told, newest first in `Cfg.log`.
     `reg`/`unreg` are ghost markers (a producer object enters / leaves the bookkeeping). -/
@@ -66,11 +69,14 @@ inductive Op where
   | use                                -- `use_connection(c)`
   | stop                               -- `stop_using_connection()`
   | pull (p : Nat)                     -- one Cooperator work unit of the `PullToPush` adapter `p`
+  | failWrite                          -- the producer writes to its locally closed subchannel: `AlreadyClosedError`
+                                       -- leaves its `resumeProducing()` (the rest of the turn is not performed)
   deriving DecidableEq, Repr
 
 inductive Frame where
   | loop
   | ops (r : List Op)
+  | pull (sc : Nat) (r : List Op)
   deriving DecidableEq, Repr
 
 /-! ## state -/
@@ -234,13 +240,32 @@ def opStop (c : Cfg) : Cfg :=
   if !c.o.conn then c.raiseOp .noConnection
   else pauseProducing { c with o := { c.o with conn := false, unsent := [] }, log := .tUnreg :: c.log }
 
-/-- the Cooperator steps adapter `p` only while its task is not paused and not stopped -/
+/-- the subchannel whose registration created adapter `p` (the `sc` captured by its `unregister` closure) -/
+def scOf (p : Nat) (l : List (Nat × Nat)) : Option Nat := (l.find? (fun e => e.2 == p)).map Prod.fst
+
+/-- the Cooperator steps adapter `p` only while its task is not paused and not stopped:
+    `PullToPush._pull` calls the pull producer's `resumeProducing()` inside `try:` -/
 def opPull (c : Cfg) (p : Nat) : Cfg :=
   if p ∈ c.o.pulls ∧ p ∈ c.o.unpausedSet then
-    match c.scripts with
-    | [] => { c with stack := .ops [] :: c.stack, log := .pulled p :: c.log }
-    | s :: ss => { c with scripts := ss, stack := .ops s :: c.stack, log := .pulled p :: c.log }
+    match scOf p c.o.scp with
+    | none => c
+    | some sc =>
+      match c.scripts with
+      | [] => { c with stack := .pull sc [] :: c.stack, log := .pulled p :: c.log }
+      | s :: ss => { c with scripts := ss, stack := .pull sc s :: c.stack, log := .pulled p :: c.log }
   else c
+
+/-- `except Exception:` around `self._unregister()` in `_pull`: whatever the unregistration raises is swallowed -/
+def quiet (c : Cfg) : Cfg :=
+  match c.log with
+  | .exc _ :: l => { c with log := l }
+  | _ => c
+
+/-- `PullToPush._pull`: ANY exception out of the pull producer's `resumeProducing()` is logged and answered by
+    `self._unregister()` = `subchannel_unregisterProducer(sc)` (→ `stopStreaming()`, removal from the rotation);
+    `k` = the stack below the turn -/
+def pullFailed (c : Cfg) (sc : Nat) (k : List Frame) : Cfg :=
+  quiet (opUnreg { c with stack := k } sc)
 
 def exec (c : Cfg) : Op → Cfg
   | .write b => opWrite c b
@@ -253,6 +278,7 @@ def exec (c : Cfg) : Op → Cfg
   | .use => opUse c
   | .stop => opStop c
   | .pull p => opPull c p
+  | .failWrite => c.raiseOp .alreadyClosed   -- (only reached outside a turn frame; `step` handles turns)
 
 /-- one micro-step of the Python call stack -/
 def step (c : Cfg) : Cfg :=
@@ -260,7 +286,13 @@ def step (c : Cfg) : Cfg :=
   | [] => c
   | .loop :: k => loopStep c k
   | .ops [] :: k => { c with stack := k }
+  -- the exception leaves a push producer's `resumeProducing()` (or the top-level caller's own code): it unwinds
+  -- through the `Outbound.resumeProducing` loops below to whoever called them
+  | .ops (.failWrite :: _) :: k => { c with stack := unwind k, log := .exc .alreadyClosed :: c.log }
   | .ops (op :: r) :: k => exec { c with stack := .ops r :: k } op
+  | .pull _ [] :: k => { c with stack := k }
+  | .pull sc (.failWrite :: _) :: k => pullFailed c sc k
+  | .pull sc (op :: r) :: k => exec { c with stack := .pull sc r :: k } op
 
 /-! ## termination: a lexicographic measure that every micro-step decreases -/
 
@@ -272,6 +304,7 @@ def framesSize : List Frame → Nat
   | [] => 0
   | .loop :: k => framesSize k
   | .ops r :: k => r.length + framesSize k
+  | .pull _ r :: k => r.length + framesSize k
 
 /-- operations still to be performed (in pending scripts and in active turns) -/
 def mA (c : Cfg) : Nat := scriptsSize c.scripts + framesSize c.stack
@@ -305,6 +338,7 @@ theorem framesSize_unwind_le (k : List Frame) : framesSize (unwind k) ≤ frames
     cases f with
     | loop => simp only [unwind, framesSize, List.length_cons]; omega
     | ops r => simp [unwind]
+    | pull sc r => simp [unwind]
 
 theorem pauseLoop_meas (ps : List Nat) (c : Cfg) :
     (pauseLoop ps c).stack = c.stack ∧ (pauseLoop ps c).scripts = c.scripts ∧
@@ -410,10 +444,16 @@ theorem exec_mA (c : Cfg) (op : Op) : mA (exec c op) ≤ mA c := by
     simp only [exec, opPull]
     split
     · split
-      · simp [mA, framesSize]
-      · rename_i s ss h
-        simp [mA, framesSize, h, scriptsSize]; omega
+      · simp
+      · split
+        · simp [mA, framesSize]
+        · rename_i s ss h
+          simp [mA, framesSize, h, scriptsSize]; omega
     · simp
+  | failWrite => simp [exec, mA, Cfg.raiseOp, Cfg.emit]
+
+theorem quiet_meas (c : Cfg) : (quiet c).stack = c.stack ∧ (quiet c).scripts = c.scripts ∧ (quiet c).o = c.o := by
+  unfold quiet; split <;> simp
 
 theorem raiseLoop_lt (c f : Cfg) (k : List Frame) (e : Exn) (hk : c.stack = .loop :: k)
     (h1 : f.stack = c.stack) (h2 : f.scripts = c.scripts) (h3 : f.o.unsent = c.o.unsent)
@@ -479,11 +519,32 @@ theorem step_lt (c : Cfg) (h : c.stack ≠ []) : Lt3 (meas (step c)) (meas c) :=
   · -- end of a turn
     rename_i k hk
     right; simp [meas, mA, mB, mC, hk, framesSize]
-  · rename_i op r k hk
+  · -- an exception leaves a push producer's turn
+    rename_i r k hk
+    have hw := framesSize_unwind_le k
+    left
+    simp only [meas, mA, hk, framesSize, List.length_cons]; omega
+  · rename_i op r k _ hk
     left
     have := exec_mA { c with stack := .ops r :: k } op
     simp only [meas]
     have h2 : mA { c with stack := Frame.ops r :: k } + 1 = mA c := by
+      simp [mA, hk, framesSize]; omega
+    omega
+  · -- end of a pull producer's turn
+    rename_i sc k hk
+    right; simp [meas, mA, mB, mC, hk, framesSize]
+  · -- an exception leaves a pull producer's turn: `_pull` unregisters the adapter
+    rename_i sc r k hk
+    left
+    have h1 := quiet_meas (opUnreg { c with stack := k } sc)
+    have h2 := opUnreg_meas { c with stack := k } sc
+    simp only [meas, mA, pullFailed, h1.1, h1.2.1, h2.1, h2.2, hk, framesSize, List.length_cons]; omega
+  · rename_i sc op r k _ hk
+    left
+    have := exec_mA { c with stack := .pull sc r :: k } op
+    simp only [meas]
+    have h2 : mA { c with stack := Frame.pull sc r :: k } + 1 = mA c := by
       simp [mA, hk, framesSize]; omega
     omega
 
@@ -640,7 +701,7 @@ def istep (s : Inb) : IOp → Inb
 ```
 o <op> [/ <op> <op> … [/ …]]      one top-level Outbound call; each `/`-segment is the script of one turn, in turn order
 i use | i stop | i p <sc> | i r <sc> | i s <sc> | i o <sc> | i oh <sc> | i c <sc> | i rc <sc> | i l <sc> | i lw <sc>
-op ::= w0 | w1 | P | R | S | r:<sc>:<p>:<0|1> | u:<sc> | c:<sc> | U | D | pl:<p>
+op ::= X | w0 | w1 | P | R | S | r:<sc>:<p>:<0|1> | u:<sc> | c:<sc> | U | D | pl:<p>
 ```
 answer to `o`: `<calls since the line started, oldest first> | <state>`;
 answer to `i`: `<transport calls> | <state>`. -/
@@ -654,6 +715,7 @@ def readOp? (t : String) : Option Op :=
   | ["S"] => some .stopProducing
   | ["U"] => some .use
   | ["D"] => some .stop
+  | ["X"] => some .failWrite
   | ["r", sc, p, s] => do pure (.reg (← sc.toNat?) (← p.toNat?) (s == "1"))
   | ["u", sc] => do pure (.unreg (← sc.toNat?))
   | ["c", sc] => do pure (.close (← sc.toNat?))
